@@ -1,5 +1,6 @@
 // scenarios for cocls::queue / cocls::limited_queue (C09, C10; MT parts also feed the C03 TSan workload)
 #pragma once
+#include <functional>
 #include <vf/team.h>
 #include <vf/payload.h>
 #include <cocls/queue.h>
@@ -668,6 +669,75 @@ void queue_string_values(const vf::opts &o, vf::report &R, uint64_t cases) {
         R.nontrivial_cases++;
         R.sig(desc);
         if (R.samples.size() < 2) R.sample(vf::jobj().kv("ops", desc).kv("result", "every pop received exactly the pushed text; lvalue arguments untouched").str());
+    }
+}
+
+
+// ---------------------------------------------------------------------------------------------
+// A consumer written WITHOUT coroutines (call_fn_future_awaiter, the documented replacement of a coroutine for simple use): its
+// completion handler runs inline where the pop is completed - inside push() - takes the item, asks the queue about its size and
+// immediately re-arms the next pop on the same queue. Re-entering the queue from a completion is ordinary use (completions run outside
+// the queue's lock); every pushed item must arrive exactly once and in order, unblock_pop must fail exactly the waiting pop, and
+// destroying the queue must end the waiting pop with await_canceled_exception. A queue that completes pops while holding its lock
+// blocks here forever (the watchdog reports the hang).
+template <typename Q> struct qcb_state {
+    Q *q = nullptr;
+    std::vector<uint64_t> got; std::vector<size_t> sizes; int unblocked = 0, canceled = 0, other = 0;
+    std::function<void()> next; // asks the queue for the next item (re-arms the awaiter)
+    cocls::suspend_point<void> on_item(cocls::future<qitem> &f) noexcept {
+        try { qitem &v = f.value(); got.push_back(v.ok() ? v.id : 0); }
+        catch (const vf::test_exc &) { unblocked++; }
+        catch (const cocls::await_canceled_exception &) { canceled++; return {}; }
+        catch (...) { other++; return {}; }
+        sizes.push_back(q->size());             // re-enters the queue (locks it)
+        next();
+        return {};
+    }
+};
+template <typename Q> struct qcb_consumer : qcb_state<Q> {
+    cocls::call_fn_future_awaiter<&qcb_state<Q>::on_item> awt{*this};
+    qcb_consumer() { this->next = [this] { awt << [this] { return this->q->pop(); }; }; }
+    void start() { this->next(); }
+};
+template <bool Limited>
+void queue_callback_consumer(const vf::opts &o, vf::report &R, uint64_t cases) {
+    using Q = std::conditional_t<Limited, cocls::limited_queue<qitem>, cocls::queue<qitem>>;
+    vf::rng master(vf::mix(o.seed, Limited ? 0x10cb : 0x09cb));
+    const char *scen = Limited ? "lqueue_callback_consumer" : "queue_callback_consumer";
+    for (uint64_t cn = 0; cn < cases && R.nviol() < 5; cn++) {
+        vf::rng r(master.next());
+        vf::set_crash_ctx(R.prop.c_str(), scen, o.seed, cn);
+        std::string err, desc;
+        long live0 = tracked::live.load();
+        auto C = std::make_unique<qcb_consumer<Q>>();
+        std::vector<uint64_t> pushed; int unblocks = 0;
+        std::vector<std::unique_ptr<cocls::future<void>>> pfuts; // bounded queue: push futures (parked pushes complete when the consumer pops)
+        {
+            std::unique_ptr<Q> q;
+            if constexpr (Limited) q = std::make_unique<Q>(2 + r.below(4)); else q = std::make_unique<Q>();
+            C->q = q.get();
+            bool start_first = r.chance(2, 3);
+            if (start_first) { C->start(); desc += "consumer-armed "; }
+            int len = 2 + (int)r.below(10);
+            for (int i = 0; i < len; i++) {
+                uint32_t x = r.below(10);
+                if (x < 7) { uint64_t id = 500 + (uint64_t)i; pushed.push_back(id); desc += "push "; if constexpr (Limited) { pfuts.push_back(std::unique_ptr<cocls::future<void>>(new cocls::future<void>(q->push(id)))); } else q->push(id); if (!start_first && pushed.size() >= 3) { start_first = true; C->start(); desc += "consumer-armed "; } }
+                else if (!Limited && x < 9 && start_first && C->got.size() == pushed.size()) { if constexpr (!Limited) { desc += "unblock_pop "; unblocks++; bool ok = q->unblock_pop(vf::make_exc(3)); if (!ok) err = "unblock_pop reported that no pop was waiting although the consumer had re-armed"; } }
+                else { desc += "size "; (void)q->size(); }
+            }
+            if (!start_first) { C->start(); desc += "consumer-armed "; }
+        } // queue destroyed while the consumer's pop is waiting
+        R.cases++;
+        if (err.empty() && C->got != pushed) err = "consumer received " + std::to_string(C->got.size()) + " items that differ from the " + std::to_string(pushed.size()) + " pushed ones (order / loss / duplicate)";
+        if (err.empty() && C->unblocked != unblocks) err = "unblock_pop failed " + std::to_string(C->unblocked) + " pops, called " + std::to_string(unblocks) + " times";
+        if (err.empty() && C->canceled != 1) err = "the waiting pop was ended " + std::to_string(C->canceled) + " times by the destruction of the queue";
+        if (err.empty() && C->other) err = "a pop ended with an unexpected exception";
+        for (auto &pf : pfuts) if (err.empty() && !pf->ready()) { err = "a push is still pending although the consumer took every item"; for (auto &x : pfuts) (void)x.release(); break; }
+        pfuts.clear();
+        C.reset();
+        if (err.empty() && tracked::live.load() != live0) err = "items leaked or destroyed twice";
+        if (!err.empty()) { R.violation(std::string("monitor:delivery|") + scen, err, vf::jobj().kv("case", (unsigned long long)cn).kv("seed", (unsigned long long)o.seed).kv("ops", desc).str()); continue; }
+        R.nontrivial_cases++; R.sig(desc);
     }
 }
 
